@@ -357,7 +357,19 @@ def form(b, rng):
     return tuple(b) if r < 0.8 else puan.Bounds(b[0], b[1])
 
 def forms(d, rng):
-    return {k: form(v, rng) for k, v in d.items()}
+    r = {k: form(v, rng) for k, v in d.items()}
+    # the interpretation is "a dict": any dict will do, also the standard subclasses (some answer for missing keys)
+    q = rng.random()
+    if q < 0.06:
+        import collections
+        return collections.defaultdict(int, r)
+    if q < 0.10:
+        import collections
+        return collections.Counter(r)
+    if q < 0.14:
+        import collections
+        return collections.OrderedDict(r)
+    return r
 
 def ref_eval_d(p, d, env, out=None):
     """independent reference for Sem.eval_d: d normalised {id:(lo,hi)}, env leaf values.
@@ -547,6 +559,20 @@ class ConfigGen:
         r = {"k": kind, "ch": ch, "id": self.fresh(force_id)}
         if kind in ("CcAny", "CcXor", "Any", "Xor", "All") and rng.random() < 0.15:
             r["via"] = "from_list"
+        if kind in ("CcAny", "CcXor") and not nested and rng.random() < 0.15:
+            # alternatives that are sub-propositions: a plain group with a generated id and / or a named package; the default
+            # names one of THEM (by id), an item that is not among the alternatives, or nothing
+            used = {c["id"] for c in ch}
+            free = [n for n in self.items if n not in used]
+            if len(free) >= 2:
+                grp = {"k": rng.choice(["Any", "All"]), "ch": [self.leaf(n) for n in free[:2]], "id": None if rng.random() < 0.6 else self.fresh(True)}
+                alts = [grp] + (ch[:1] if rng.random() < 0.6 else [{"k": "All", "ch": ch[:2], "id": self.fresh(True)}])
+                rng.shuffle(alts)
+                r["ch"] = alts
+                named = [a["id"] for a in alts if a.get("id") is not None and a["k"] not in ("str", "var")]
+                r["default"] = rng.choice([[rng.choice(named)] if named else ["zz"], ["zz"], [rng.choice(self.items)], None])
+                if r["default"] is None: del r["default"]
+                return r
         if kind in ("CcAny", "CcXor"):
             q = rng.random() if not nested else rng.uniform(0.12, 0.7)
             if q < 0.12 and len(ch) >= 3:
